@@ -150,12 +150,14 @@ PROPS = {
     ),
     'C18': dict(
         level='proof',
-        units=['nameglob:GRAPH.*', 'path:buffer::PushBuffer::*'],
-        explanation='GRAPH.* instruction rows: operand handling, which stacks may change, the graph stack keeps its depth and only the newest graph may change (older snapshots are untouched), '
-                    'DUP pushes a copy of the newest graph (Clone = structural copy, A-clone), history reads go through PushBuffer::get (C17)',
-        not_decided=['Graph methods (add_node, add_edge, remove_*, set_state, get/set_weight, filter, diff) use HashMap::get_mut/iter_mut/retain/position with closures: bodies external or without functional contracts; '
-                     'the set-model claims (edges connect existing nodes, one edge per pair, counts, query results, textual diff) are NOT decided',
-                     'GRAPH.EDGE*HISTORY (println!) is external'],
+        units=['nameglob:GRAPH.*', 'path:buffer::PushBuffer::*', 'path:graph::Graph::*', 'path:graph::Node::*', 'path:graph::Edge::*'],
+        explanation='Graph model (nodes: id -> Node, edges: destination -> incoming edges): wf = every node stored under its id, every edge connects two existing nodes, at most one edge per ordered pair; '
+                    'wf is preserved by Graph::new / add_node / add_edge / set_state (proved) and is part of the state invariant every GRAPH.* row re-establishes; add_edge adds the edge exactly when both nodes exist and not twice; '
+                    'get_state / set_state / node_size against the map model; GRAPH.NODE*ADD / GETSTATE / SETSTATE / HISTORY / EDGE*ADD rows with values; the graph stack keeps its depth and only the newest graph may change '
+                    '(older snapshots untouched); DUP pushes a structural copy',
+        not_decided=['remove_node, remove_edge, get_weight, diff, edge_size, filter results and the neighbour / predecessor / successor queries use closures or HashMap iteration: bodies external or safety-only '
+                     '(set_weight is trusted with the assumed contract "only weights change")',
+                     'the textual diff and GRAPH.EDGE*HISTORY (println!) are external'],
     ),
     'C19': dict(
         level='proof',
